@@ -168,3 +168,14 @@ contract('nfc.clf.pn53x:Device._send_psl_response', 'C19',
                   ('O-negotiate.brty', 'result == ("106A", "212F", "424F")[psl_req[3] % 8]'),
                   ('O-negotiate.answered', 'len(self.chipset.sent) == 1 and self.chipset.sent[0][1:] == psl_res')],
          raises={})
+
+# the NFC-DEP payload limit both roles adopt at activation is what every layer above sends by: obligations of C06
+# ("over the complete stack from connect() down to the radio frames") as well
+import copy as _copy
+from pyvc.contracts import REGISTRY as _REG
+for _c in list(_REG):
+    if _c.name in ('C19/Target.activate', 'C19/Initiator.activate'):
+        _c2 = _copy.copy(_c)
+        _c2.prop = 'C06'
+        _c2.name = 'C06/dep.' + _c.name.split('/', 1)[1]
+        _REG.append(_c2)
